@@ -177,6 +177,11 @@ def run(tier, seed):
     clauses = {}
     for it, v in zip(ref_items, ref_verdicts):
         clauses[json.dumps(it["id"])] = sorted({c for _, c in v["viol"]})
+    # execution-graph layer (debug variants): EG_* clauses are conformance drift, never a verdict
+    eg_runs = sum(1 for it in ref_items if any(e["k"] == "EG" for e in it["ev"]))
+    eg_bad = [(it["id"], cl) for it, v in zip(ref_items, ref_verdicts) for _, cl in v["viol"] if cl.startswith("EG_")]
+    for ident, cl in eg_bad[:5]:
+        print(f"DRIFT execution graph (debug mode) case={json.dumps(ident)} clause={cl} (recorded graph and reference history differ; not a verdict)")
     findings = []
     hashes = set()
     for (c, r, k), vs in zip(owners, viols):
@@ -195,6 +200,7 @@ def run(tier, seed):
         "traces_validated_against_impl": len(items),
         "samples": [{"case": owners[0][0], "canonical_observations": canon_of(owners[0][2]["item"])[0]}] if owners else [],
         "evaluations": len(items), "distinct_nontrivial": len(hashes),
+        "execution_graphs_checked": eg_runs, "execution_graph_drift": len(eg_bad),
         "rule": "one evaluation = one run of a scenario under a variant (reply schedule / start order / connect order / lazy / cache / debug / LocalProxy / "
                 "RemoteProxy-over-fake-streams) compared by TLC (DetTrace) with the canonical run of the same scenario; behaviours are deterministic functions of "
                 "(simulator, request kind, step index); distinct = distinct observable histories of the variant runs",
